@@ -141,7 +141,7 @@ def check(lines):
         if k == "H":
             h = ev[1][1:]; t = ev[2]; ec = ev[3]
             observe_time(t, "handler h%s" % h)
-            if ev[4] == "1" and h not in posted_ids.get("dispatch", set()):
+            if ev[4] == "1" and h in started:
                 f3.append(("never_inline", "h%s invoked from inside an initiating call" % h))
             if h in done:
                 f3.append(("at_most_once", "h%s invoked twice" % h))
